@@ -22,7 +22,7 @@ pub struct Violation {
     pub replay: Value,
 }
 
-#[derive(Clone, Copy, Debug, PartialEq)]
+#[derive(Clone, Copy, Debug, PartialEq, Eq)]
 pub enum Tier {
     Quick,
     Thorough,
@@ -193,7 +193,10 @@ fn limit_memory(bytes: u64) {
 pub fn run_worker(spec: &Spec, a: &WorkerArgs) -> i32 {
     exec::install_panic_hook();
     let mem_gb: u64 = std::env::var("VERIF_WORKER_MEM_GB").ok().and_then(|s| s.parse().ok()).unwrap_or(6);
-    limit_memory(mem_gb << 30);
+    // sanitizer builds reserve huge shadow address ranges: no cap there
+    if std::env::var("HCVERIF_NO_RLIMIT").is_err() && !cfg!(miri) {
+        limit_memory(mem_gb << 30);
+    }
     let t0 = Instant::now();
     let status_path = a.out.with_extension("status");
     let hang_secs = spec.hang_secs * a.hang_mult;
@@ -244,7 +247,7 @@ pub fn run_worker(spec: &Spec, a: &WorkerArgs) -> i32 {
                 break;
             }
         }
-        let secs = (spec.random_secs)(a.tier);
+        let secs = std::env::var("VERIF_RANDOM_SECS").ok().and_then(|s| s.parse().ok()).unwrap_or((spec.random_secs)(a.tier));
         let cap = (spec.random_cap)(a.tier);
         let t1 = Instant::now();
         let mut k = 0u64;
